@@ -147,6 +147,26 @@ func run(c *ev.Ctx) {
 	// list and by name, or sets, shortcuts with rules, allOf, additionalProperties, item counts), alone,
 	// as a property next to another one, optional, inside an array
 	c16.AstFamily(func(cs sc.Case) { each("ast", cs) })
+	// big examples: objects of n properties and arrays of n items (examples from some hundred bytes to
+	// > 16 KiB: the pooled buffers grow, are dropped, are reused), alone, followed by a small sibling, and
+	// twice in a row; every case is also the "next example" of the case before it in this process
+	for _, n := range []int{20, 60, 100, 150, 200, 300, 600, 1200} {
+		var props []gen.Prop
+		var items []*gen.Node
+		for i := 0; i < n; i++ {
+			props = append(props, gen.P(fmt.Sprintf("property_%04d", i), gen.Str(`"value"`)))
+			items = append(items, gen.Str(fmt.Sprintf(`"item %04d"`, i)))
+		}
+		big := gen.Obj(props...)
+		small := gen.Obj(gen.P("a", gen.Int("1")))
+		each("big", sc.Case{Root: big})
+		each("big", sc.Case{Root: small.Clone()})
+		each("big", sc.Case{Root: gen.Arr(big.Clone(), small.Clone())})
+		each("big", sc.Case{Root: gen.Obj(gen.P("first", big.Clone()), gen.P("then", small.Clone()), gen.P("list", gen.Arr(gen.Int("1"), gen.Int("2"))))})
+		each("big", sc.Case{Root: gen.Arr(items...)})
+		each("big", sc.Case{Root: gen.Arr(gen.Arr(items...), gen.Arr(gen.Int("1")))})
+		each("big", sc.Case{Root: gen.Obj(gen.P("t", gen.Ref("@big")), gen.P("s", gen.Obj(gen.P("b", gen.Bool("true"))))), Types: []sc.TypeDecl{{Name: "@big", Body: big.Clone()}}})
+	}
 }
 
 // shortcutWithOrRule: the case has type-shortcut nodes carrying an or rule, and dropping those or rules (and
